@@ -20,7 +20,7 @@ from . import explore as X
 from . import world as Wd
 
 MAX_VIOL_PER_JOB = 40
-_NO_CRIT = frozenset(["shared", "re", "mk", "iv", "sync", "with:N", "with:Xp", "with:Xr", "flush:new", "flush:nested",
+_NO_CRIT = frozenset(["shared", "re", "mk", "iv", "sync", "with:N", "with:Xp", "with:Xr", "flush:new", "flush:nested", "flush:hooknested",
                       "dd", "ddirty", "dbi"])
 
 
